@@ -43,6 +43,8 @@ pub struct OutConfig {
     pub any_master: bool,
     pub max_unsol_retries: Option<u8>,
     pub unsol_retry_delay_ms: u32,
+    /// overrides `unsol_retry_delay_ms` (values beyond 32 bits: the delay is a plain Duration)
+    pub unsol_retry_delay_long_ms: Option<u64>,
     pub keep_alive_ms: Option<u32>,
     pub max_controls: Option<u16>,
     /// per type: binary, double, bos, counter, frozen counter, analog, aos, octet string
@@ -70,6 +72,7 @@ impl Default for OutConfig {
             any_master: false,
             max_unsol_retries: None,
             unsol_retry_delay_ms: 5000,
+            unsol_retry_delay_long_ms: None,
             keep_alive_ms: None,
             max_controls: None,
             udp_remote: None,
@@ -119,7 +122,7 @@ impl OutConfig {
             respond_to_any_master: feature(self.any_master),
         };
         c.max_unsolicited_retries = self.max_unsol_retries.map(|x| x as usize);
-        c.unsolicited_retry_delay = Duration::from_millis(self.unsol_retry_delay_ms as u64);
+        c.unsolicited_retry_delay = Duration::from_millis(self.unsol_retry_delay_long_ms.unwrap_or(self.unsol_retry_delay_ms as u64));
         c.keep_alive_timeout = self.keep_alive_ms.map(|x| Duration::from_millis(x as u64));
         c.max_controls_per_request = self.max_controls;
         c.max_read_request_headers = self.max_read_headers;
